@@ -270,7 +270,7 @@ def stratum_obligations(case):
 
 def run(tier, seed, only=None):
     common.ensure_souffle()
-    cs = [c for c in corpus.corpus(tier, extra=("opt", "magic", "systematic")) if c.mode == "U" and (not only or only in c.name)]
+    cs = [c for c in corpus.corpus(tier, extra=("opt", "magic", "systematic"), deepen=2) if c.mode == "U" and (not only or only in c.name)]
     cs = [c for c in cs if "loop" in _quick_has_loop(c)]
     t0 = time.time()
     ctxm = mp.get_context("fork")
